@@ -106,6 +106,7 @@ func init() {
 				os.WriteFile(filepath.Join(d, "A0LatestData.java"), []byte("public class A0LatestData { void a() { } }\n"), 0o644)
 				os.WriteFile(filepath.Join(d, "A0_gen.java"), []byte("public class A0_gen { void g() { } }\n"), 0o644)
 				os.WriteFile(filepath.Join(d, "A0notes.txt"), []byte("class Fake {}\n"), 0o644)
+				os.WriteFile(filepath.Join(d, "A0.gitkeep"), []byte{}, 0o644) // a zero-byte file
 				os.WriteFile(filepath.Join(sub, ".gitignore"), []byte("*_gen.java\n"), 0o644)
 			}
 			return sub, paths
